@@ -47,25 +47,28 @@ def main():
         def unplace():
             for d in demos:
                 os.remove(os.path.join(tdir, os.path.basename(d)))
-        place()
-        rc, o = sh(["go", "test", "-vet=off", "-count=1"] + demo_args, wt)
-        out["demo_without_change"] = "pass" if rc == 0 else "FAIL"
-        out["demo_without_tail"] = o[-400:]
-        unplace()
+        only = bool(os.environ.get("SEED_CHECKS_ONLY"))  # re-run of the checks against an already confirmed change
+        if not only:
+            place()
+            rc, o = sh(["go", "test", "-vet=off", "-count=1"] + demo_args, wt)
+            out["demo_without_change"] = "pass" if rc == 0 else "FAIL"
+            out["demo_without_tail"] = o[-400:]
+            unplace()
         rc, o = sh(["git", "apply", src + "/patch.diff"], wt)
         if rc != 0:
             out["apply"] = "FAILED: " + o[-400:]
             print(json.dumps(out, indent=1))
             return
-        rc, o = sh(SUITE, wt)
-        out["suite_with_change"] = "pass" if rc == 0 else "FAIL"
-        if rc != 0:
-            out["suite_tail"] = o[-800:]
-        place()
-        rc, o = sh(["go", "test", "-vet=off", "-count=1"] + demo_args, wt)
-        out["demo_with_change"] = "fail (as intended)" if rc != 0 else "PASSES (seed not confirmed)"
-        out["demo_with_tail"] = o[-600:]
-        unplace()
+        if not only:
+            rc, o = sh(SUITE, wt)
+            out["suite_with_change"] = "pass" if rc == 0 else "FAIL"
+            if rc != 0:
+                out["suite_tail"] = o[-800:]
+            place()
+            rc, o = sh(["go", "test", "-vet=off", "-count=1"] + demo_args, wt)
+            out["demo_with_change"] = "fail (as intended)" if rc != 0 else "PASSES (seed not confirmed)"
+            out["demo_with_tail"] = o[-600:]
+            unplace()
         out["checks"] = {}
         for c in checks:
             tier = "quick"
